@@ -52,6 +52,8 @@ func main() {
 		r.Cases("held-back", r.Scale(12, 60), 12, func(c *vkit.Case) { heldBack(c) })
 		r.Floor("overdue batches visited by impatient consumers", r.Table("overdue-cancel", "rounds"), 300)
 		r.Floor("streams judged for late hand-over of later batches", r.Table("held-back", "streams"), 10)
+		r.Cases("deaf-close", r.Scale(60, 600), 4, func(c *vkit.Case) { deafClose(c) })
+		r.Floor("Close with an endless deaf source", r.Table("deaf-close", "rounds"), 50)
 		r.Floor("poison rounds", r.Table("poison", "rounds"), 30)
 		// (how many waiters arrived while full() was running depends on machine load: recorded, not a floor)
 		r.Floor("timer-edge trials", r.Table("timer-edge", "trials"), 100)
